@@ -31,7 +31,12 @@ typing of bytecode (`Spec/Balanced.lean`): a function is *balanced* when an anno
                           texts of the generator's grammar that returned values), a text of the
                           grammar that returns a value leaves the interpreter at rest. `RunAtRest`
                           over EVERY state at rest is not provable without that invariant and
-                          stays a `def`; `OneAtATime` stays a `def` (`one_at_a_time_partial`).
+                          stays a `def`; `OneAtATime` stays a `def` (`one_at_a_time_partial`);
+* the last section is about RE-ENTRANCY: compiled code is shared by all activations and carries
+  no run-time state (`code_writes_exact`, a regenerated table), and the static scope count of
+  break/continue is right for every activation (`break_lands_at_activation_depth`,
+  `same_pc_same_depth`, `nested_activation_depths`, `call_contract_of_verified_callee`,
+  `exec_break_continue_static`).
 -/
 import ZygoVerif.Spec.Balanced
 import ZygoVerif.Spec.AtRest
@@ -44,7 +49,9 @@ import ZygoVerif.Proofs.VMRest
 import ZygoVerif.Proofs.VMRefine
 import ZygoVerif.Proofs.RunPrim
 import ZygoVerif.Proofs.RunMain
+import ZygoVerif.Proofs.Reentrant
 import ZygoVerif.Generated.InstrSet
+import ZygoVerif.Generated.CodeWrites
 namespace ZygoVerif.C04
 open ZygoVerif.Bal ZygoVerif.VM ZygoVerif.Core
 
@@ -703,5 +710,216 @@ theorem one_at_a_time_partial (cs ds : List (List Instr)) (hc : cs ≠ []) (hd :
 
 example : asmBegin ([[Instr.push .nil], [Instr.dup]] ++ [[Instr.envToStack "a"]])
     = asmBegin [[Instr.push .nil], [Instr.dup]] ++ [Instr.pop] ++ asmBegin [[Instr.envToStack "a"]] := rfl
+
+
+/-! ## Re-entrancy: compiled code carries no run-time state
+
+A compiled function is ONE object — instruction structs, the `Loop` records they point to, the
+`SexpFunction` template — executed by every activation of the function: by the recursive call made
+from inside its own loop body as well as by the outer call that is still waiting for it. The
+machines of this file have no state in the code (a state is pc, data stack, scope depth, address
+depth; the code is a parameter), so the theorems above hold per activation, at any depth. For the
+real VM that is a fact about the source, regenerated on every run: -/
+
+/-- Every place of package zygo where a field of a compiled-code object (a type implementing
+`Instruction`, `Loop`, `SexpFunction`) is written outside the function that constructs the object:
+(function, Type.field, how) and WHY the stored value does not depend on the activation. -/
+def allowedCodeWrites : List ((String × String × String) × String) :=
+  [ (("BreakInstr.Execute", "BreakInstr.pos", "assign"),
+      "cache of FindLoop(s.loop): the index of the loop's LoopStartInstr in the instruction slice the break sits in; an instruction sits in one slice, closure copies share it, so every activation computes the same number (0 = not cached yet)"),
+    (("ContinueInstr.Execute", "ContinueInstr.pos", "assign"),
+      "as BreakInstr.pos"),
+    (("CreateClosureInstr.Execute", "SexpFunction.parent", "assign"),
+      "the function in which the closure is created, noted in the template and in the copy: read by symbol lookup only (LookupSymbolUntilFunction / ClosingLookupSymbol), never by code that moves a stack; what it does to name resolution is C02's and C16's subject"),
+    (("FuncBuilder", "SexpFunction.hasBody", "assign"),
+      "set once by the `func` builder on the function value CreateClosureInstr just made for it (popped off the data stack); a constant of the declaration"),
+    (("SexpFunction.SetClosing", "SexpFunction.closingOverScopes", "assign"),
+      "setter; every call site has a freshly made function as receiver (a call on anything else would be listed as SexpFunction.SetClosing())"),
+    (("SexpFunction.SetFormalSymbols", "SexpFunction.argSyms", "assign"),
+      "setter used while the template is built (MakeFunction, buildSexpFun, FuncBuilder); no call site on a finished object"),
+    (("SexpFunction.SetFormalSymbols", "SexpFunction.hasLazyFormals", "assign"), "as argSyms"),
+    (("SexpFunction.SetFormalSymbols", "SexpFunction.lazyFormals", "assign"), "as argSyms"),
+    (("Zlisp.LoadExpressions", "SexpFunction.fun", "assign"),
+      "mainfunc.fun grows by the code of each text (append only: positions of existing instructions, hence cached `pos` fields, stay valid); by design, not judged as growth") ]
+
+/-- **code_writes_exact** (table fact, regenerated from the source on every run): the fields of
+compiled-code objects written anywhere outside their construction are EXACTLY the justified list
+above — none of them holds a stack depth or anything else that differs between two activations
+that are open at the same time. A new field written by an `Execute` method or a VM function
+(as `Loop.entryDepth` written by `LoopStartInstr.Execute` in the seeded change C04-m3) breaks this
+theorem; channel `rest`, stream `reent`, then looks for the failing input. -/
+theorem code_writes_exact :
+    Generated.CodeWrites.codeWrites = allowedCodeWrites.map (·.1) := by decide
+
+/-- Package-level variables that hold, or are keyed by, compiled-code objects, and what they are. -/
+def allowedCodeGlobals : List ((String × String) × String) :=
+  [ (("MissingFunction", "*SexpFunction"), "the constant placeholder returned beside an error; a Go-function value (user = true), never executed as bytecode, never written"),
+    (("sxArrayOf", "*SexpFunction"), "the builtin constructor `arrayOf` (a Go function wrapped by MakeUserFunction), assigned once at package initialisation"),
+    (("sxSliceOf", "*SexpFunction"), "the builtin constructor `sliceOf`, as sxArrayOf") ]
+
+/-- **code_globals_exact** (table fact): no package-level variable is a side table of compiled-code
+objects — a `map[*Loop]int` noting a depth per loop would be state of the code exactly as a field
+is, without any field being written. The three variables that exist are constants. -/
+theorem code_globals_exact :
+    Generated.CodeWrites.codeGlobals = allowedCodeGlobals.map (·.1) := by decide
+
+/-- every instruction type of the checker's instruction set is a compiled-code type of that table -/
+theorem code_types_cover_instructions :
+    ∀ t ∈ Generated.InstrSet.instrTypes, t ∈ Generated.CodeWrites.codeTypes := by decide
+
+theorem code_types_cover_loop_and_template :
+    "Loop" ∈ Generated.CodeWrites.codeTypes ∧ "SexpFunction" ∈ Generated.CodeWrites.codeTypes := by decide
+
+/-- **same_pc_same_depth.** Inside ONE activation of a verified function the scope depth is
+`S + k(pc)` — the depth at which this activation was entered plus a compile-time constant of the
+pc. Hence two visits of the same pc by the same activation see the same scope depth, whatever
+happened in between: loop iterations, breaks, nested calls (each a single step that leaves the
+scope depth alone — `call_contract_of_verified_callee` — also when the callee is the function
+itself). -/
+theorem same_pc_same_depth (f : Fn) (ann : Ann) (hv : verify f ann = true)
+    (D : List Cell) (S A : Nat) (c0 c c' : CState)
+    (hpc : c0.pc = 0) (hdata : c0.data = List.replicate f.entryCount .val ++ D)
+    (hsc : c0.sc = S) (haddr : c0.addr = A) (hr : Reach f c0 c) (hr' : Reach f c0 c')
+    (hsame : c.pc = c'.pc) :
+    c.sc = c'.sc ∧ ∃ a, annAt ann c.pc = some a ∧ c.sc = S + a.k := by
+  refine ⟨Bal.same_pc_same_depth f ann hv D S A c0 c c' hpc hdata hsc haddr hr hr' hsame, ?_⟩
+  exact scope_depth_of_pc f ann hv D S A c0 c hpc hdata hsc haddr hr
+
+/-- **break_lands_at_activation_depth.** A `break`/`continue` of a verified function, executed by
+an activation that was entered with `S` scopes: (1) pops exactly the count `p` written in the
+instruction (nothing is read from the loop record but the jump offset), (2) `p` is the difference
+of the compile-time constants of the two pcs, and (3) afterwards the scope depth is
+`S + k(landing pc)` — THIS activation's depth at the landing point; (4) compared with any visit
+`cs` of a `LoopStartInstr` by the same activation, before or after any number of re-entrant calls,
+the difference is the constant `k(landing) − k(loopStart)` (1 in generated code: the loop's own
+scope, `exWalk_constants`). This is why the static count is right for re-entrant code and why no
+record of "the depth at loop entry" is needed. -/
+theorem break_lands_at_activation_depth (f : Fn) (ann : Ann) (hv : verify f ann = true)
+    (D : List Cell) (S A : Nat) (c0 c c' : CState)
+    (hpc : c0.pc = 0) (hdata : c0.data = List.replicate f.entryCount .val ++ D)
+    (hsc : c0.sc = S) (haddr : c0.addr = A) (hreach : Reach f c0 c)
+    (l : Nat) (off : Int) (p : Nat) (hat : AtExit f c l off p) (hstep : CStep f c c') :
+    (p ≤ c.sc ∧ c'.sc = c.sc - p ∧ c'.data = c.data ∧ c'.addr = c.addr)
+    ∧ (∃ a a', annAt ann c.pc = some a ∧ annAt ann c'.pc = some a' ∧
+        c.sc = S + a.k ∧ c'.sc = S + a'.k ∧ a.k = a'.k + p)
+    ∧ (∀ cs l', Reach f c0 cs → f.code[cs.pc]? = some (.loopStart l') →
+        ∃ as a', annAt ann cs.pc = some as ∧ annAt ann c'.pc = some a' ∧ c'.sc + as.k = cs.sc + a'.k) := by
+  obtain ⟨h1, h2, h3, h4, _⟩ := exit_pops_static f c c' l off p hat hstep
+  refine ⟨⟨h1, h2, h3, h4⟩, exit_lands_at_activation_depth f ann hv D S A c0 c c' hpc hdata hsc haddr hreach l off p hat hstep, ?_⟩
+  intro cs l' hrs hstart
+  exact exit_depth_vs_loop_entry f ann hv D S A c0 cs c c' hpc hdata hsc haddr l' hrs hstart hreach l off p hat hstep
+
+/-- **call_contract_of_verified_callee.** The single step the stack-effect machine takes for a
+call — arguments popped, ONE value pushed, scope and address depth as before — is what a run of a
+verified callee to its `ret` does from the caller's state, at ANY scope depth and on top of ANY
+rest of the data stack. With `g := f` it is the recursive call a function makes from inside its
+own loop body: it comes back with the scope depth it was made at. -/
+theorem call_contract_of_verified_callee (g : Fn) (ann : Ann) (hv : verify g ann = true)
+    (rest : List Cell) (sc addr : Nat) (e : CState)
+    (hreach : Reach g ⟨0, List.replicate g.entryCount .val ++ rest, sc, addr + 1⟩ e) (hret : AtRet g e) :
+    e.data = List.replicate 1 .val ++ rest ∧ e.sc = sc ∧ (afterRet e).addr = addr :=
+  Bal.call_contract_of_verified_callee g ann hv rest sc addr e hreach hret
+
+/-- **nested_activation_depths.** Two activations of the same verified code, one inside the other:
+the outer one (entered at depth `S`) is at `c` when the function is entered again at depth `c.sc`.
+Whenever the two activations are at the same pc — e.g. both just landed behind a `break` of the
+same loop — their scope depths differ by exactly `c.sc − S`, the depth of the call site inside the
+outer activation (≥ 1 behind `AddFuncScopeInstr`). One depth recorded per loop, in the shared
+`Loop` record, by whichever activation entered the loop last, is therefore wrong for the other
+one; the static count is right for both. -/
+theorem nested_activation_depths (f : Fn) (ann : Ann) (hv : verify f ann = true)
+    (D : List Cell) (S A : Nat) (c0 c : CState)
+    (hpc : c0.pc = 0) (hdata : c0.data = List.replicate f.entryCount .val ++ D)
+    (hsc : c0.sc = S) (haddr : c0.addr = A) (hc : Reach f c0 c)
+    (rest : List Cell) (hcd : c.data = List.replicate f.entryCount .val ++ rest)
+    (x' y' : CState)
+    (hx : Reach f ⟨0, c.data, c.sc, c.addr + 1⟩ x') (hy : Reach f c0 y') (hsame : x'.pc = y'.pc) :
+    S ≤ c.sc ∧ x'.sc = y'.sc + (c.sc - S) :=
+  Bal.nested_activation_depths f ann hv D S A c0 c hpc hdata hsc haddr hc rest hcd x' y' hx hy hsame
+
+/-- **exec_break_continue_static** (VM model): `exec` of `BreakInstr` / `ContinueInstr` drops exactly
+the static number of scopes and writes neither the loop table nor the function table nor the data
+or address stack; `LoopStartInstr` changes nothing but the pc. -/
+theorem exec_break_continue_static (l k n : Nat) (s s' : St) :
+    ((exec (n + 1) (.brk l k)).run s = (.ok (), s') ∨ (exec (n + 1) (.cont l k)).run s = (.ok (), s') →
+      k ≤ s.linear.length ∧ s'.linear = s.linear.drop k ∧ s'.loops = s.loops ∧ s'.fns = s.fns ∧
+      s'.data = s.data ∧ s'.addr = s.addr)
+    ∧ ((exec (n + 1) (.loopStart l)).run s = (.ok (), s') → s' = { s with pc := s.pc + 1 }) := by
+  refine ⟨?_, Refine.exec_loopStart_pure l n s s'⟩
+  rintro (h | h)
+  · obtain ⟨h1, h2, h3, h4, h5, h6, _⟩ := Refine.exec_brk_static l k n s s' h
+    exact ⟨h1, h2, h3, h4, h5, h6⟩
+  · obtain ⟨h1, h2, h3, h4, h5, h6, _⟩ := Refine.exec_cont_static l k n s s' h
+    exact ⟨h1, h2, h3, h4, h5, h6⟩
+
+/-! ### Non-vacuity -/
+
+/-- The recursive tree walk of the seeded change's demonstration, as the REAL generator compiles it
+(listing taken from channel `bal`):
+`(defn walk [tree] (for [(def i 0) (< i (len tree)) (set i (+ i 1))]
+   (let [c (aget tree i)] (cond (array? c) (walk c) (< c 0) (break) (set total (+ total c))))))`.
+Instruction 2 is the `LoopStartInstr`, 25 the recursive call, 29 the `break` out of the `let`
+(one scope to pop), 38 its landing point. -/
+def exWalk : Fn :=
+  { kind := .fn, nformals := 1, nfixed := 1,
+    code := [.addFuncScope, .popStackPutEnv, .loopStart 1, .addScope, .pushMark 1, .label, .push, .dup,
+             .popStackPutEnv, .popUntilMark 1, .jump 6, .label, .callExpr 2, .dup, .update, .popUntilMark 1,
+             .label, .callExpr 2, .branch false 19, .label, .addScope, .callExpr 2, .popStackPutEnv,
+             .callExpr 1, .branch false 3, .callExpr 1, .jump 8, .callExpr 2, .branch false 3, .brk 1 36 1,
+             .jump 4, .callExpr 2, .dup, .update, .removeScope, .popUntilMark 1, .jump (-25), .label,
+             .clearMark 1, .removeScope, .push, .removeScope, .ret false] }
+
+example : checkB exWalk = true := by decide
+
+/-- the compile-time constants `k` of the walk: 1 at the `LoopStartInstr` (the function scope), 3 at
+the `break` (function, loop, `let`), 2 at its landing point (function, loop) — landing minus loop
+start = 1, the loop's own scope. -/
+theorem exWalk_constants :
+    (infer exWalk).toOption.map (fun ann => ((annAt ann 2).map (·.k), (annAt ann 29).map (·.k), (annAt ann 38).map (·.k)))
+      = some (some 1, some 3, some 2) := by decide
+
+/-- a minimal function with a `break` out of one nested scope -/
+def exBreak : Fn :=
+  { kind := .fn, code := [.addFuncScope, .loopStart 1, .addScope, .pushMark 1, .addScope, .brk 1 5 1,
+                          .clearMark 1, .removeScope, .push, .removeScope, .ret false] }
+
+example : checkB exBreak = true := by decide
+
+/-- The hypotheses of `break_lands_at_activation_depth` are satisfiable: `exBreak`, entered with 7
+scopes on top of a caller's data, reaches its `break` with 10 scopes and lands with 9 = 7 + 2. -/
+example : ∃ c c', Reach exBreak ⟨0, [.val, .marker], 7, 3⟩ c ∧ AtExit exBreak c 1 5 1 ∧ CStep exBreak c c'
+    ∧ c.sc = 10 ∧ c'.sc = 9 ∧ c'.pc = 6 := by
+  refine ⟨⟨5, [.mark 1, .val, .marker], 10, 3⟩, ⟨6, [.mark 1, .val, .marker], 9, 3⟩, ?_, Or.inl rfl, ?_, rfl, rfl, rfl⟩
+  · have s1 : CStep exBreak ⟨0, [.val, .marker], 7, 3⟩ ⟨1, [.val, .marker], 8, 3⟩ :=
+      CStep.scopeUp _ .addFuncScope rfl rfl
+    have s2 : CStep exBreak ⟨1, [.val, .marker], 8, 3⟩ ⟨2, [.val, .marker], 8, 3⟩ :=
+      CStep.simple _ (.loopStart 1) 0 0 [] [.val, .marker] rfl rfl rfl rfl
+    have s3 : CStep exBreak ⟨2, [.val, .marker], 8, 3⟩ ⟨3, [.val, .marker], 9, 3⟩ :=
+      CStep.scopeUp _ .addScope rfl rfl
+    have s4 : CStep exBreak ⟨3, [.val, .marker], 9, 3⟩ ⟨4, [.mark 1, .val, .marker], 9, 3⟩ :=
+      CStep.pushMark _ (.pushMark 1) 1 rfl rfl
+    have s5 : CStep exBreak ⟨4, [.mark 1, .val, .marker], 9, 3⟩ ⟨5, [.mark 1, .val, .marker], 10, 3⟩ :=
+      CStep.scopeUp _ .addScope rfl rfl
+    exact Reach.step _ _ _ (Reach.step _ _ _ (Reach.step _ _ _ (Reach.step _ _ _ (Reach.step _ _ _ (Reach.refl _) s1) s2) s3) s4) s5
+  · exact CStep.exitLoop (f := exBreak) ⟨5, [.mark 1, .val, .marker], 10, 3⟩ (.brk 1 5 1) 1 5 1 1 rfl rfl (by decide) (by decide) (by decide)
+
+/-- a VM state inside a function `g` that consists of a loop start and a `break` with two scopes to pop -/
+def exBrkSt : St :=
+  { initSt with fns := initSt.fns ++ [{ name := "g", code := [.loopStart 0, .brk 0 2] }], curfunc := 2,
+                loops := [{ breakOff := 2 }], linear := [some 0, some 0, some 0], pc := 1 }
+
+set_option linter.unusedSimpArgs false in
+/-- `exec_break_continue_static` is not vacuous: that `break`, run by the VM model, succeeds, drops
+two of the three scopes and jumps to loop start + break offset. -/
+example : ∃ s', (exec 1 (.brk 0 2)).run exBrkSt = (.ok (), s') ∧ s'.linear = [some 0] ∧ s'.pc = 2 := by
+  refine ⟨{ exBrkSt with linear := [some 0], pc := 2 }, ?_, rfl, rfl⟩
+  simp only [exec]
+  rw [Refine.run_get_bind]
+  have hf : findLoopStart (fnOf exBrkSt exBrkSt.curfunc).code 0 = some 0 := by decide
+  rw [hf]
+  simp [popScopes, popScope, err, ExceptT.run, bind, ExceptT.bind, ExceptT.mk, ExceptT.bindCont, StateT.bind, modify,
+    modifyGet, MonadStateOf.modifyGet, StateT.modifyGet, ExceptT.lift, liftM, monadLift, MonadLift.monadLift, get, getThe,
+    MonadStateOf.get, StateT.get, set, StateT.set, pure, ExceptT.pure, StateT.pure, Functor.map, StateT.map, throw,
+    throwThe, MonadExceptOf.throw, exBrkSt]
 
 end ZygoVerif.C04
